@@ -6,10 +6,10 @@ func init() {
 	register(&Prop{
 		ID: "C04",
 		Explanation: "Balancer / stableswap math never gives value away, structural clauses: at the pool boundary the amount paid out is truncated and the amount charged is ceiled (both pool types, swaps, joins, exits); the stableswap solver scales reserves and the input down, the requested output up and divides rounding up for the amount charged; the rounding-mode dispatch maps each mode to the matching division; the solver's domain guards and the exit/swap reserve guards exist; " +
-			"each pool model's state-mutating swap returns exactly what its pure calculation returned for the same arguments and applies exactly those coins to the reserves (sibling agreement).",
+			"each pool model's state-mutating swap returns exactly what its pure calculation returned for the same arguments and applies exactly those coins to the reserves (sibling agreement). Round 8: both pool models range-check exit fee and swap fee field by field; an LBP poke after the end of the weight change goes through updateAllWeights (total weight kept in step).",
 		NotCovered:  []string{"agreement with the constant-weighted-product formula to powPrecision", "monotonicity of the stableswap invariant", "value conservation over sequences (iterative series and binary search)"},
 		Assumptions: []string{"osmomath.Pow / binary search accuracy (C13)"},
-		MinObl:      54,
+		MinObl:      62,
 		Run:         runC04,
 	})
 }
